@@ -215,3 +215,22 @@ def c11(c):
     for k in ('placements_checked', 'placements_at_an_edge(ambiguous)', 'placements_outside_or_nonfinite', 'bins_checked', 'differential_bins_checked',
               'runs_plain', 'runs_vegas', 'runs_multi_channel'):
         c.require(k)
+
+
+@prop('C12',
+      rule="case = one run (or resumed pair of runs, or shim-MPI run with 2..4 ranks) of PLAIN/VEGAS/multi-channel over 1..8 iterations of unequal "
+           "calls with a recording callback: (a) user callback returning false at a chosen position or never, (b) built-in callback with target 0 "
+           "in one of the four modes on integrands {ordinary, identically zero, constant, zero-mean sign-changing, non-finite everywhere, non-"
+           "finite sometimes}, (c) built-in callback with a positive target aimed (from a probe run's error trajectory) at the first / a middle / "
+           "the last / no iteration, (d) checkpoint -> text -> resume, (e)/(f) the MPI forms. Checked: results().size() 1,2,3.. per invocation, "
+           "exactly calls[k] integrand invocations in between, earlier results untouched, stop iff false, returned checkpoint == last handed one, "
+           "built-in decisions == documented variance-weighted rule in long double. non-trivial = >= 2 iterations; distinct = case configuration.",
+      assumptions=["decisions with |rel - target| <= 64 eps_T target are ambiguous and skipped; with a positive target, iterations where some S_i is 0 or non-finite are not judged (the documented combination is undefined there)",
+                   "with target 0 every decision is judged: the run must never end early",
+                   "MPI forms run on the in-process shim; integrand invocations are summed over ranks"])
+def c12(c):
+    c.std([dict(src='c12_callbacks.cpp', build='asan', shards={'quick': 5, 'thorough': 5}, extra_inc=SHIM, libs=['-pthread'])])
+    for k in ('callback_invocations_checked', 'builtin_decisions_checked', 'builtin_stops_on_target', 'stops_on_a_middle_iteration', 'stops_on_the_first_iteration',
+              'target_never_reached', 'resumed_segments_checked', 'mpi_runs_checked', 'integrand_identically-zero', 'integrand_constant',
+              'integrand_non-finite-everywhere', 'integrand_zero-mean', 'positive_target_with_undefined_relative_error'):
+        c.require(k)
